@@ -359,7 +359,15 @@ func (r *hdRun) exec(o *hdOp) string {
 			if o.Tok == 1 {
 				rnd = rnd[:20]
 			}
-			mac := hmac.New(sha256.New, []byte(hdInternalSecret))
+			secret, tokNum := hdInternalSecret, o.Tok
+			if s.noSecret {
+				// no secret is configured: the only token one could try is the one computed with the empty key
+				secret, tokNum = "", 4
+				if o.Tok == 1 {
+					rnd = newRandomString(64)
+				}
+			}
+			mac := hmac.New(sha256.New, []byte(secret))
 			mac.Write([]byte(rnd))
 			token := hex.EncodeToString(mac.Sum(nil))
 			switch o.Tok {
@@ -383,7 +391,7 @@ func (r *hdRun) exec(o *hdOp) string {
 					dialout = true
 				}
 			}
-			term = fmt.Sprintf("OHello %d (HInternal %d %d %s %s)", o.C, o.B, o.Tok, coqBool(incall), coqBool(dialout))
+			term = fmt.Sprintf("OHello %d (HInternal %d %d %s %s)", o.C, o.B, tokNum, coqBool(incall), coqBool(dialout))
 		case "resume":
 			id, t := r.resolve(o.Id)
 			hello["resumeid"] = id
